@@ -500,9 +500,18 @@ Definition opt_or (a : option str) (b : str) : str :=
   match a with Some (c :: r) => c :: r | _ => b end.
 
 (* parse.function(function_def, infer_type, word_wrap, function_type, function_name) for an ast.FunctionDef;
-   doc_ir = docstring(doc_str.replace(":cvar", ":param"), infer_type=infer_type) when there is a docstring *)
-Definition parse_function (pi pj : perm) (doc_ir : option ir) (fd : stmt)
-           (infer_type word_wrap : bool) (function_type function_name : option str) : outcome ir :=
+   doc_ir = docstring(doc_str.replace(":cvar", ":param"), infer_type=infer_type) when there is a docstring.
+   Three stages: everything before ir_merge (pf_prepare), ir_merge, everything after it (pf_finish). *)
+Record prepared : Type := mkPrepared {
+  pp_target : ir;
+  pp_other : ir;
+  pp_append : list (str * gparam);     (* params_to_append *)
+  pp_body : list stmt;                 (* body without the docstring *)
+  pp_returns : option expr
+}.
+
+Definition pf_prepare (doc_ir : option ir) (fd : stmt) (function_type function_name : option str)
+  : outcome prepared :=
   match fd with
   | SFunc fname a body _ fn_returns =>
     if (match function_name with Some n => negb (str_eqb fname n) | None => false end)
@@ -533,21 +542,29 @@ Definition parse_function (pi pj : perm) (doc_ir : option ir) (fd : stmt)
                  end
                | None => Ok (ir_params base, [])
                end;
-      let '(params0, params_to_append) := kw in
-      let target := mkIR (Has (opt_or function_name fname)) (Has (opt_or function_type found_type))
-                         (ir_doc base) params0 (ir_returns base) internal' in
-      let other := mkIR Missing Missing Missing (od_of_pairs (sig_pairs a pos)) FNone None in
-      do merged <- ir_merge pi pj target other;
-      let params1 := fold_left (fun d kv => od_set (fst kv) (snd kv) d) params_to_append (ir_params merged) in
-      do params2 <- set_names_and_types params1 infer_type word_wrap;
-      do rets <- interpolate_return body' fn_returns (ir_returns merged);
-      do rets' <- match rets with
-                  | Has p => do r <- set_name_and_type (L "return_type") p infer_type word_wrap; Ok (Has (snd r))
-                  | x => Ok x
-                  end;
-      Ok (mkIR (ir_name merged) (ir_type merged) (ir_doc merged) params2 rets' (ir_internal merged))
+      Ok (mkPrepared
+            (mkIR (Has (opt_or function_name fname)) (Has (opt_or function_type found_type))
+                  (ir_doc base) (fst kw) (ir_returns base) internal')
+            (mkIR Missing Missing Missing (od_of_pairs (sig_pairs a pos)) FNone None)
+            (snd kw) body' fn_returns)
   | _ => Err AssertionError
   end.
+
+Definition pf_finish (pp : prepared) (merged : ir) (infer_type word_wrap : bool) : outcome ir :=
+  let params1 := fold_left (fun d kv => od_set (fst kv) (snd kv) d) (pp_append pp) (ir_params merged) in
+  do params2 <- set_names_and_types params1 infer_type word_wrap;
+  do rets <- interpolate_return (pp_body pp) (pp_returns pp) (ir_returns merged);
+  do rets' <- match rets with
+              | Has p => do r <- set_name_and_type (L "return_type") p infer_type word_wrap; Ok (Has (snd r))
+              | x => Ok x
+              end;
+  Ok (mkIR (ir_name merged) (ir_type merged) (ir_doc merged) params2 rets' (ir_internal merged)).
+
+Definition parse_function (pi pj : perm) (doc_ir : option ir) (fd : stmt)
+           (infer_type word_wrap : bool) (function_type function_name : option str) : outcome ir :=
+  do pp <- pf_prepare doc_ir fd function_type function_name;
+  do merged <- ir_merge pi pj (pp_target pp) (pp_other pp);
+  pf_finish pp merged infer_type word_wrap.
 
 (* ================= parse.py: _merge_inner_function ================= *)
 
